@@ -259,6 +259,87 @@ pub fn replay_pair(sub: &'static str) -> impl Fn(&Value, &Env) -> CaseResult {
     }
 }
 
+/// Towers: one construct nested / chained 1..16 times around a small random
+/// leaf, against documents nested the same way (depth-dependent behaviour).
+fn towers(src: &mut Src, st: &mut Stats, _env: &Env) -> CaseResult {
+    let depth = 1 + src.below(16);
+    let leaf = *src.pick(&["a", "@", "`1`", "a[0]", "[0]", "a.b", "length(@)", "a || `0`", "'x'"]);
+    let rep = |s: &str| s.repeat(depth);
+    let kind = src.below(16);
+    let text = match kind {
+        0 => format!("a{}", rep(".a")),
+        1 => format!("a{}", rep("[0]")),
+        2 => format!("a{}", rep("[*]")),
+        3 => format!("a{}", rep("[]")),
+        4 => format!("{}{}{}", rep("a[?"), leaf, rep("]")),
+        5 => format!("{}{}{}", rep("["), leaf, rep("]")),
+        6 => format!("{}{}{}", rep("{a:"), leaf, rep("}")),
+        7 => format!("{}{}{}", rep("("), leaf, rep(")")),
+        8 => format!("{}{}", rep("!"), leaf),
+        9 => format!("{}{}", leaf, rep(" | @")),
+        10 => format!("{}{}", leaf, rep(" || a")),
+        11 => format!("{}{}", leaf, rep(" && a")),
+        12 => format!("{}{}", leaf, rep(" == a")),
+        13 => format!("a{}", rep("[-1]")),
+        14 => format!("a{}", rep("[::-1]")),
+        _ => format!("a{} | {}", rep("[*].a"), leaf),
+    };
+    // a document nested the same way
+    let mut doc = match src.below(4) {
+        0 => J::int(7),
+        1 => J::s("leaf"),
+        2 => J::Arr(vec![J::int(1), J::Null, J::int(3)]),
+        _ => J::Null,
+    };
+    let dd = depth + src.below(3) - src.below(2).min(depth - 1).min(1);
+    for i in 0..dd {
+        doc = match (kind, src.below(4)) {
+            (0, _) | (6, _) => {
+                let mut m = std::collections::BTreeMap::new();
+                m.insert("a".to_string(), doc);
+                if i % 3 == 0 {
+                    m.insert("b".to_string(), J::int(i as i64));
+                }
+                J::Obj(m)
+            }
+            (1, _) | (2, _) | (3, _) | (13, _) | (14, _) => J::Arr(vec![doc.clone(), J::Null, doc]),
+            (_, 0) => J::Arr(vec![doc]),
+            (_, 1) => {
+                let mut m = std::collections::BTreeMap::new();
+                m.insert("a".to_string(), doc);
+                J::Obj(m)
+            }
+            (_, 2) => {
+                let mut m = std::collections::BTreeMap::new();
+                m.insert("a".to_string(), J::Arr(vec![doc.clone(), doc]));
+                J::Obj(m)
+            }
+            _ => J::Arr(vec![J::Obj([("a".to_string(), doc)].into_iter().collect())]),
+        };
+    }
+    if matches!(kind, 1 | 2 | 3 | 13 | 14) || src.flip() {
+        let mut m = std::collections::BTreeMap::new();
+        m.insert("a".to_string(), doc);
+        doc = J::Obj(m);
+    }
+    if doc.node_count() > 20_000 {
+        st.discard();
+        return Ok(());
+    }
+    let tree = match refparse::parse_strict(&text) {
+        Ok(t) => t,
+        Err(e) => return Err(Failure::new("towers", "harness-ref", format!("{}: {}", text, e.msg), json!({"expression": text}))),
+    };
+    st.eval();
+    let dt = doc.to_json();
+    let c = compare("towers", &tree, &text, &doc, &dt, st, true)?;
+    st.class(&format!("tower:{}:{}", kind, if depth >= 8 { "deep" } else { "shallow" }));
+    if c.nontrivial && depth >= 6 && st.nontrivial(&format!("{}\u{0}{}", text, dt)) {
+        st.sample(|| json!({"expression": text, "document": dt}));
+    }
+    Ok(())
+}
+
 fn fuzz_run(env: &Env, st: &mut Stats) -> Vec<Failure> {
     crate::fuzzing::campaign("eval_diff", env, st, 240)
 }
@@ -316,6 +397,7 @@ pub fn property() -> Property {
                 thorough: Budget { threads: 16, cases: 100_000 },
                 keep_unreproducible: false,
             }),
+            Sub::Bytes(BytesSub { name: "towers", f: towers, max_len: 64, quick: Budget { threads: 8, cases: 3000 }, thorough: Budget { threads: 16, cases: 150_000 }, keep_unreproducible: false }),
             Sub::Custom(CustomSub { name: "cross", run: cross, replay: replay_cross }),
             Sub::Custom(CustomSub { name: "fuzz-eval_diff", run: fuzz_run, replay: fuzz_replay }),
         ],
